@@ -43,12 +43,36 @@ def build(asan=False):
     dest = os.path.join(CACHE, key)
     marker = os.path.join(dest, "BUILD_OK")
     if os.path.exists(marker):
+        os.utime(marker, None)
         return os.path.join(dest, "src")
-    # keep the cache small: remove other builds of the same flavour
-    if os.path.isdir(CACHE):
-        for d in os.listdir(CACHE):
-            if d.endswith("-asan") == asan and d != key:
-                shutil.rmtree(os.path.join(CACHE, d), ignore_errors=True)
+    os.makedirs(CACHE, exist_ok=True)
+    # one build at a time (checks of several properties, or of several trees, may run concurrently)
+    import fcntl
+    lock = open(os.path.join(CACHE, ".lock"), "w")
+    fcntl.flock(lock, fcntl.LOCK_EX)
+    try:
+        return _build_locked(key, dest, marker, asan)
+    finally:
+        fcntl.flock(lock, fcntl.LOCK_UN)
+        lock.close()
+
+
+def _build_locked(key, dest, marker, asan):
+    import time
+    if os.path.exists(marker):
+        return os.path.join(dest, "src")
+    # keep the cache small: remove builds that have not been used for an hour (a build in use by a concurrent run
+    # against another tree must not disappear), and never keep more than eight
+    now = time.time()
+    olds = []
+    for d in os.listdir(CACHE):
+        m = os.path.join(CACHE, d, "BUILD_OK")
+        if d != key and not d.startswith("."):
+            olds.append((os.path.getmtime(m) if os.path.exists(m) else 0, d))
+    olds.sort()
+    for i, (mt, d) in enumerate(olds):
+        if now - mt > 3600 or len(olds) - i > 8:
+            shutil.rmtree(os.path.join(CACHE, d), ignore_errors=True)
     shutil.rmtree(dest, ignore_errors=True)
     os.makedirs(os.path.join(dest, "src"))
     srcdir = os.path.join(REPO, "src", "cutadapt")
